@@ -1024,8 +1024,25 @@ func (a *activation) call(ci ssa.CallInstruction) aval {
 				out.merge("", a.external(ci, obj, args, resType))
 			}
 		case nIn:
-			// user-supplied callback: documented contract - must not mutate or retain its arguments
 			known = true
+			if isOptionFuncType(cc.Value.Type()) {
+				// an option value (csv.Columns(order), csv.EnumValues(m), ...) handed in by the caller: one of
+				// the module's option closures of that type; whatever it captured is memory of the caller
+				// (prestate reached through the function value), so storing a captured map or slice into the
+				// configuration and writing through it later is a write to the caller's memory
+				for _, callee := range pu.res.callees(ci) {
+					if callee.Parent() == nil {
+						continue
+					}
+					var free []aval
+					for i, fv := range callee.FreeVars {
+						free = append(free, pu.read(l.n, fmt.Sprintf("$%s%d", callee.Parent().Name(), i), fv.Type()))
+					}
+					out.merge("", pu.analyse(callee, args, free, a.depth+1))
+				}
+				break
+			}
+			// user-supplied callback: documented contract - must not mutate or retain its arguments
 			out.merge("", a.freshResult(ci, resType))
 		case nGlob:
 			// function table in a package-level variable: resolve by signature over address-taken functions
@@ -1049,6 +1066,17 @@ func (a *activation) call(ci ssa.CallInstruction) aval {
 		}
 	}
 	return out
+}
+
+// isOptionFuncType: a named function type declared in one of the module's config packages
+// (csv.ConfigFunc, csv.ToConfigFunc, groupby.ConfigFunc, ...).
+func isOptionFuncType(t types.Type) bool {
+	n, ok := t.(*types.Named)
+	if !ok || n.Obj().Pkg() == nil || !strings.HasPrefix(n.Obj().Pkg().Path(), rel("config")+"/") {
+		return false
+	}
+	_, isSig := n.Underlying().(*types.Signature)
+	return isSig
 }
 
 func (a *activation) builtin(ci ssa.CallInstruction, name string, args []aval, resType types.Type) aval {
@@ -1510,6 +1538,7 @@ func init() {
 	purityRule("R1g", "PURITY-GROUP", 4, "(qframe.QFrame).GroupBy", "(qframe.Grouper).Aggregate", "(qframe.Grouper).QFrames", "(qframe.QFrame).Distinct")
 	purityRule("R1a", "PURITY-APPLY", 4, "(qframe.QFrame).Apply", "(qframe.QFrame).FilteredApply", "(qframe.QFrame).WithRowNums", "(qframe.QFrame).Eval")
 	purityRule("R1x", "PURITY-EXPR", 2, "qframe.Expr", "qframe.Val")
+	purityRule("R1r", "PURITY-READ", 4, "qframe.ReadCSV", "qframe.ReadJSON", "qframe.ReadSQL", "qframe.New")
 	purityRule("R1n", "PURITY-PROJECT", 6, "qframe.New", "(qframe.QFrame).Select", "(qframe.QFrame).Drop", "(qframe.QFrame).Slice", "(qframe.QFrame).Copy", "(qframe.QFrame).Filter")
 }
 
